@@ -6,6 +6,7 @@ import (
 	"github.com/ethereum/go-ethereum/common"
 	"github.com/holiman/uint256"
 	"math/big"
+	"sort"
 )
 
 type NodeType int
@@ -91,6 +92,8 @@ func (k *StorageKey) Children() []*StorageKey {
 			res = append(res, child)
 		}
 	}
+	// map iteration order is random: return the children in the order of their index keys
+	sort.Slice(res, func(i, j int) bool { return bytes.Compare(res[i].data, res[j].data) < 0 })
 	return res
 }
 
@@ -102,6 +105,7 @@ func (k *StorageKey) ChildrenIndices() [][]byte {
 			res = append(res, []byte(index))
 		}
 	}
+	sort.Slice(res, func(i, j int) bool { return bytes.Compare(res[i], res[j]) < 0 })
 	return res
 }
 
@@ -367,6 +371,7 @@ func (s *StateChanges) IndicesOfChanges(account common.Address, stateVarName str
 		}
 	}
 
+	sort.Slice(res, func(i, j int) bool { return bytes.Compare(res[i], res[j]) < 0 })
 	return res
 }
 
